@@ -31,8 +31,12 @@ func (m *FixPeriodPlanner) Process(ctx *shared.PlannerContext,
 		return nil, fmt.Errorf("exceeded maximum resolution of 11,000 points per timeseries. " +
 			"Try decreasing the query resolution (?step=XX)")
 	}
-	ctx.From = ctx.From.Truncate(m.Duration)
-	ctx.To = ctx.To.Truncate(m.Duration).Add(m.Duration)
+	// widen the window to whole buckets of the grid both engines use: multiples of the
+	// duration counted from the Unix epoch (time.Truncate counts from year 1, which is a
+	// different grid for every duration that does not divide 24h)
+	d := m.Duration.Nanoseconds()
+	ctx.From = time.Unix(0, _from/d*d)
+	ctx.To = time.Unix(0, _to/d*d+d)
 
 	_in, err := m.Main.Process(ctx, in)
 	if err != nil {
